@@ -311,7 +311,7 @@ class De:
 
 def build_spec(contract, model):
     """concrete inputs for the native run, from the contract's own setup()"""
-    ctx = Ctx()
+    ctx = Ctx(new_path=True)
     ip = Interp(ctx)
     libspec.install_logger_globals(ip.repo)
     ip.verifying = contract.qualname
